@@ -45,12 +45,15 @@ MCSetCands ==
           [] pk[2] = "name"  -> {StrV(<<"b", "o", "b">>), StrV(<<" ", "p", "a", "d", " ", "<", "&", ">", "\t", "\n">>)}
           [] pk[2] = "pw"    -> {StrV(<<"s", "3", "c", "r", "e", "t", "!", "p", "w">>), StrV(<<>>), LongSecret}
           [] pk[2] = "hash"  -> {StrV(<<"h", "u", "n", "t", "e", "r", "2", "!">>)}
-          [] pk[2] = "blob"  -> {BytesV(<<0, 255, 65>>), BytesV(<<>>)}
+          \* (60 bytes: longer than one 76-column line of base64)
+          [] pk[2] = "blob"  -> {BytesV(<<0, 255, 65>>), BytesV(<<>>), BytesV([i \in 1..60 |-> (i * 7) % 256])}
           [] pk[2] = "bl"    -> {ListV(<<BytesV(<<1, 2>>), StrV(<<"a", "b">>)>>)}
           [] pk[2] = "sl"    -> {ListV(<<StrV(<<"l", "i", "s", "t", "s", "e", "c", "r", "e", "t", "1">>), StrV(<<>>)>>)}
           [] pk[2] = "dd"    -> {D1(<<"k">>, BytesV(<<7>>))}
           [] pk[2] = "api"   -> {StrV(<<"A", "P", "I", "K", "E", "Y", "-", "7", "7">>)}
-          [] pk[1] = <<"sub">> -> {StrV(<<"s", "u", "b", "t", "o", "k", "e", "n", "#", "1">>)}
+          \* (an AES secret of exactly one cipher block: the padding block must still be written)
+          [] pk[1] = <<"sub">> -> {StrV(<<"s", "u", "b", "t", "o", "k", "e", "n", "#", "1">>),
+                                  StrV(<<"b", "l", "o", "c", "k", "-", "o", "f", "-", "1", "6", "-", "c", "h", "#", "!">>)}
           [] pk[2] = "vault" -> {D1(<<"s", "e", "c">>, StrV(<<"v", "a", "u", "l", "t", "s", "e", "c", "#", "2">>)), [t |-> "cfgobj", c |-> VaultObj]}
           [] pk[2] = "sec"   -> {StrV(<<"v", "a", "u", "l", "t", "s", "e", "c", "#", "3">>)}
           [] pk[1] = <<"vault", "inner">> -> {StrV(<<"i", "n", "n", "e", "r", "t", "o", "k", "#", "4">>)}
@@ -106,6 +109,8 @@ MCSetCandsK ==
           [] pk = << <<"v1", "inner">>, "v2">> -> {D1(<<"s", "2">>, Sx(<<"v", "2", "s", "2", "#", "1", "0", "!">>))}
           [] pk = << <<"v1", "inner", "v2">>, "s2">> -> {Sx(<<"v", "2", "s", "2", "#", "1", "1", "!">>)}
           [] pk = << <<>>, "items">> -> {ListV(<<D2(<<"u">>, Sx(<<"a">>), <<"p", "w">>, Sx(<<"i", "t", "e", "m", "p", "w", "#", "1", "2">>))>>),
-                                        ListV(<<[t |-> "cfgobj", c |-> KItemObj], D1(<<"u">>, Sx(<<"b">>))>>)}
+                                        ListV(<<[t |-> "cfgobj", c |-> KItemObj], D1(<<"u">>, Sx(<<"b">>))>>),
+                                        \* two equal, separately created instances
+                                        ListV(<<[t |-> "cfgobj", c |-> KItemObj], [t |-> "cfgobj", c |-> KItemObj]>>)}
           [] pk = << <<>>, "api">> -> {Sx(<<"A", "P", "I", "-", "K", "E", "Y", "-", "1", "3">>)}]
 ====
